@@ -391,8 +391,8 @@ func runCase(roots []*fnode, gmp int, batchSpins [nBatch]int) sexp.Node {
 	writeQuery(&sb, roots)
 	query := sb.String()
 
-	prev := runtime.GOMAXPROCS(gmp)
-	defer runtime.GOMAXPROCS(prev)
+	prev := setGMP(gmp)
+	defer setGMP(prev)
 
 	// the reference: the same query with every resolver synchronous
 	rs := newRun(b.items, b.conns)
@@ -592,6 +592,8 @@ func clone(n *fnode) *fnode {
 
 var gmps = []int{1, 2, 4, 16}
 
+func setGMP(n int) int { return runtime.GOMAXPROCS(n) }
+
 func main() {
 	api = buildAPI()
 	hx.Main(func(h *hx.H) {
@@ -644,6 +646,25 @@ func main() {
 					bs[k] = r.Intn(4)
 				}
 				return runCase(roots, gmp, bs)
+			})
+		}
+		// 4. graphql-ws subscriptions: a forest beneath the subscription field, 1-3 events, one of
+		// them recorded (all of them count for leaks, hangs and the response)
+		n = 300
+		if h.Thorough() {
+			n = 6000
+		}
+		for i := 0; i < n; i++ {
+			gmp := gmps[i%len(gmps)]
+			h.Case(func(r *rng.R) sexp.Node {
+				budget := r.Range(2, 9)
+				roots := genTree(r, &budget, 0)
+				var bs [nBatch]int
+				for k := range bs {
+					bs[k] = r.Intn(4)
+				}
+				events := r.Range(1, 3)
+				return runCaseWS(roots, gmp, bs, events, r.Intn(events))
 			})
 		}
 	})
